@@ -568,6 +568,30 @@ fn g_lanes<V: Copy>(cx: &mut Cx, g: &mut Gen, ty: u32, n: usize, mk: Mk<V>, rd: 
         cx.push(ty, 45, 0, &a, &[], &[], r);
     }
 }
+/// the element whose only set bit is its top bit: 0x80000000, 0x8000000000000000, 1 << 127 (little-endian bytes)
+fn top_bit(es: usize) -> Vec<u8> {
+    let mut x = vec![0u8; es];
+    x[es - 1] = 0x80;
+    x
+}
+/// all-ones, top bit only, all but the top bit, zero; for 16-byte lane elements also 0x80000000 / 0xffffffff in one word only
+fn boundary_elems(es: usize) -> Vec<Vec<u8>> {
+    let mut v = vec![vec![0xffu8; es], top_bit(es), vec![0u8; es]];
+    let mut low = vec![0xffu8; es];
+    low[es - 1] = 0x7f;
+    v.push(low);
+    if es > 8 {
+        for w in 0..es / 4 {
+            let mut x = vec![0u8; es];
+            x[4 * w + 3] = 0x80;
+            v.push(x);
+            let mut y = vec![0u8; es];
+            y[4 * w..4 * w + 4].copy_from_slice(&[0xff; 4]);
+            v.push(y);
+        }
+    }
+    v
+}
 /// extract / insert of element type E (a word or a lane), `cnt` valid indices, `es` bytes per element
 fn g_vec_elems<V: Copy, E: Copy>(
     cx: &mut Cx, g: &mut Gen, ty: u32, n: usize, cnt: u32, es: usize, mk: Mk<V>, rd: Rd<V>, mke: Mk<E>, rde: Rd<E>,
@@ -578,9 +602,32 @@ fn g_vec_elems<V: Copy, E: Copy>(
         for &i in &idxs {
             let r = guard(|| rde(ext(mk(&a), i)));
             cx.push(ty, 31, i, &a, &[], &[], r);
-            for x in [vec![0xa5u8; es], (0..es).map(|t| 0xf0 ^ (t as u8)).collect::<Vec<u8>>(), vec![0u8; es]] {
+            // all-ones and top-bit-only elements (0xffffffff / 0x80000000 and their 64- and 128-bit analogues) were added after
+            // the mutation campaign (M52: an `insert` that mishandles 0xffffffff was invisible here); 0 was already there
+            for x in [vec![0xa5u8; es], (0..es).map(|t| 0xf0 ^ (t as u8)).collect::<Vec<u8>>(), vec![0u8; es], vec![0xffu8; es], top_bit(es)] {
                 let r = guard(|| rd(ins(mk(&a), mke(&x), i)));
                 cx.push(ty, 32, i, &a, &[], &x, r);
+            }
+        }
+    }
+    // the boundary element values at every valid index: inserted into the counting / all-ones / zero vector, and extracted
+    // from vectors that hold the value in element i only (neighbours 0, then neighbours all-ones) and in every element
+    for i in 0..cnt {
+        let k = i as usize * es;
+        let counting: Vec<u8> = (0..n).map(|t| t as u8).collect();
+        for sv in boundary_elems(es) {
+            for v in [counting.clone(), vec![0xffu8; n], vec![0u8; n]] {
+                let r = guard(|| rd(ins(mk(&v), mke(&sv), i)));
+                cx.push(ty, 32, i, &v, &[], &sv, r);
+            }
+            let mut alone = vec![0u8; n];
+            alone[k..k + es].copy_from_slice(&sv);
+            let mut among_ones = vec![0xffu8; n];
+            among_ones[k..k + es].copy_from_slice(&sv);
+            let everywhere: Vec<u8> = (0..n).map(|t| sv[t % es]).collect();
+            for v in [alone, among_ones, everywhere] {
+                let r = guard(|| rde(ext(mk(&v), i)));
+                cx.push(ty, 31, i, &v, &[], &[], r);
             }
         }
     }
